@@ -275,9 +275,17 @@ impl<K, V, A: Allocator> CaoHashMap<K, V, A> {
         for i in 0..capacity {
             let hash = *data.as_ptr().cast::<u64>().add(i);
             if hash != 0 {
-                let key = std::ptr::read(keys.as_ptr().add(i));
-                let val = std::ptr::read(values.as_ptr().add(i));
-                self.insert_with_hint(hash, key, val)?;
+                // every stored entry moves to a free bucket of its own, found by its hash alone:
+                // comparing keys here would merge two entries whose keys (tables) were changed
+                // into equal ones after they had been stored
+                let mut j = self.home_ind(hash);
+                while self.hashes()[j] != 0 {
+                    j = (j + 1) % self.capacity;
+                }
+                self.hashes_mut()[j] = hash;
+                std::ptr::copy_nonoverlapping(keys.as_ptr().add(i), self.keys.as_ptr().add(j), 1);
+                std::ptr::copy_nonoverlapping(values.as_ptr().add(i), self.values.as_ptr().add(j), 1);
+                self.count += 1;
             }
         }
 
